@@ -246,10 +246,14 @@ impl<T: Send + 'static> ReadyPipeQueue<T> {
 
       match slot.rx.try_recv() {
         Ok(item) => {
+          #[cfg(rzmq_verif)]
+          crate::verif::point("rpq.pop.after_recv");
           let prev = slot.queued_count.fetch_sub(1, Ordering::AcqRel);
           slot.reserved_count.fetch_sub(1, Ordering::AcqRel);
           debug_assert!(prev > 0);
           audit_slot(&slot, "pop");
+          #[cfg(rzmq_verif)]
+          crate::verif::point("rpq.pop.after_sub");
 
           if prev > 1 {
             cancel_guard!(guard, "ReadyPipeQueue::pop → ready_tx.send");
@@ -301,10 +305,14 @@ impl<T: Send + 'static> ReadyPipeQueue<T> {
 
       match slot.rx.try_recv() {
         Ok(item) => {
+          #[cfg(rzmq_verif)]
+          crate::verif::point("rpq.try_pop.after_recv");
           let prev = slot.queued_count.fetch_sub(1, Ordering::AcqRel);
           slot.reserved_count.fetch_sub(1, Ordering::AcqRel);
           debug_assert!(prev > 0);
           audit_slot(&slot, "try_pop");
+          #[cfg(rzmq_verif)]
+          crate::verif::point("rpq.try_pop.after_sub");
 
           if prev > 1 {
             let _ = self.ready_tx.try_send(Arc::clone(&slot));
@@ -389,8 +397,12 @@ impl<T: Send + 'static> ReadyPipeSender<T> {
 
     // Message is committed to the channel. Seal the reservation so Drop
     // does not roll it back; the consumer's pop() will release it instead.
+    #[cfg(rzmq_verif)]
+    crate::verif::point("rpq.send.after_write");
     let prev = slot.queued_count.fetch_add(1, Ordering::AcqRel);
     reservation.commit();
+    #[cfg(rzmq_verif)]
+    crate::verif::point("rpq.send.after_add");
 
     if prev == 0 {
       cancel_guard!(cd, "ReadyPipeSender::send → ready_tx.send");
@@ -417,8 +429,12 @@ impl<T: Send + 'static> ReadyPipeSender<T> {
     // If this returns an error, the reservation is dropped (rolled back).
     slot.tx.try_send(item)?;
 
+    #[cfg(rzmq_verif)]
+    crate::verif::point("rpq.try_send.after_write");
     let prev = slot.queued_count.fetch_add(1, Ordering::AcqRel);
     reservation.commit();
+    #[cfg(rzmq_verif)]
+    crate::verif::point("rpq.try_send.after_add");
 
     if prev == 0 {
       // 0→1 transition: ready queue capacity must be >= max registered
@@ -468,10 +484,14 @@ impl<T: Send + 'static> ReadyPipeSender<T> {
           total_weight += weight;
           // Inline increment — consumer may pop the item before the batch ends;
           // updating immediately keeps queued_count >= physical channel occupancy.
+          #[cfg(rzmq_verif)]
+          crate::verif::point("rpq.batch.after_write");
           let prev = slot.queued_count.fetch_add(1, Ordering::AcqRel);
           if prev == 0 {
             had_zero_transition = true;
           }
+          #[cfg(rzmq_verif)]
+          crate::verif::point("rpq.batch.after_add");
         }
         Err(TrySendError::Full(returned)) => {
           items.push_front(returned);
